@@ -465,4 +465,19 @@ std::vector<std::string> sampleFiles() {
 	std::sort(r.begin(), r.end());
 	return r;
 }
+
+bool relabelTypes(std::string& bytes, const std::vector<std::string>& types) {
+	HeaderInfo h = parseHeader(bytes);
+	if (!h.ok || !h.hasSizes) return false;
+	for (auto& t : types) {
+		std::string needle;
+		uint32_t n = (uint32_t) t.size();
+		needle.append((const char*) &n, 4);
+		needle += t;
+		size_t p = bytes.find(needle);
+		if (p == std::string::npos || p > h.hdrLen) return false;
+		bytes[p + 4] = (bytes[p + 4] == 'Q') ? 'Z' : 'Q';
+	}
+	return true;
+}
 } // namespace vh
